@@ -154,7 +154,14 @@ type Reader struct {
 
 const maxConsecutiveEmptyReads = 100
 
+// minReadBufferSize is what bufio.NewReaderSize enforces as well: the reader can't make progress without a buffer.
+const minReadBufferSize = 16
+
 func NewReaderBuf(rd io.Reader, buf []byte) *Reader {
+	if len(buf) < minReadBufferSize {
+		buf = make([]byte, minReadBufferSize)
+	}
+
 	r := new(Reader)
 	r.reset(buf, rd)
 	return r
